@@ -14,19 +14,19 @@ import (
 )
 
 var (
-	fProperty = flag.String("sim.property", "", "property id")
-	fTier     = flag.String("sim.tier", "quick", "quick|thorough")
-	fSeed     = flag.Uint64("sim.seed", 1, "VERIF_SEED")
-	fFrom     = flag.Int("sim.from", 0, "first run index")
-	fStride   = flag.Int("sim.stride", 1, "run index stride (number of worker processes)")
-	fRuns     = flag.Int("sim.runs", 100, "max runs for this process")
-	fBudget   = flag.Duration("sim.budget", 30*time.Second, "wall clock budget for this process")
-	fOut      = flag.String("sim.out", "", "result file")
-	fReplay   = flag.String("sim.replay", "", "replay file")
-	fReplays  = flag.String("sim.replaydir", "/verif/replays", "where replay files are written")
-	fKnown    = flag.String("sim.known", "/verif/known_findings.json", "known findings file")
-	fVerbose  = flag.Bool("sim.v", false, "print event logs")
-	fLogs     = flag.String("sim.logdir", "", "write per-run event logs here (determinism self-test)")
+	fProperty    = flag.String("sim.property", "", "property id")
+	fTier        = flag.String("sim.tier", "quick", "quick|thorough")
+	fSeed        = flag.Uint64("sim.seed", 1, "VERIF_SEED")
+	fFrom        = flag.Int("sim.from", 0, "first run index")
+	fStride      = flag.Int("sim.stride", 1, "run index stride (number of worker processes)")
+	fRuns        = flag.Int("sim.runs", 100, "max runs for this process")
+	fBudget      = flag.Duration("sim.budget", 30*time.Second, "wall clock budget for this process")
+	fOut         = flag.String("sim.out", "", "result file")
+	fReplay      = flag.String("sim.replay", "", "replay file")
+	fReplays     = flag.String("sim.replaydir", "/verif/replays", "where replay files are written")
+	fKnown       = flag.String("sim.known", "/verif/known_findings.json", "known findings file")
+	fVerbose     = flag.Bool("sim.v", false, "print event logs")
+	fLogs        = flag.String("sim.logdir", "", "write per-run event logs here (determinism self-test)")
 	fCheckReplay = flag.Bool("sim.checkreplay", false, "replay every recorded plan and compare event logs")
 )
 
@@ -53,27 +53,27 @@ type KnownFinding struct {
 }
 
 type ProcResult struct {
-	Property    string            `json:"property"`
-	Tier        string            `json:"tier"`
-	Seed        uint64            `json:"seed"`
-	Runs        int               `json:"runs"`
-	Steps       int               `json:"steps"`
-	SimTimeMs   int64             `json:"sim_time_ms"`
-	Commits     int               `json:"commits"`
-	Crashes     int               `json:"crashes"`
-	Fired       map[string]int    `json:"fired"`
-	Probes      map[string]int    `json:"probes"`
-	Traces      []string          `json:"traces"`            // distinct interleaving digests
-	Nontrivial  []string          `json:"nontrivial_traces"` // those with lock overlap / fault / preemption
-	Profiles    map[string]int    `json:"profiles"`
-	Violations  []ReportedV       `json:"violations"`
-	Known       []string          `json:"known"`
-	Harness     []string          `json:"harness"`
-	Samples     []json.RawMessage `json:"samples"`
-	WallS       float64           `json:"wall_s"`
-	Leaked      int               `json:"leaked_runs"`
-	Unknown     int               `json:"porcupine_unknown"`
-	OutcomeMix  map[string]int    `json:"outcome_mix"`
+	Property   string            `json:"property"`
+	Tier       string            `json:"tier"`
+	Seed       uint64            `json:"seed"`
+	Runs       int               `json:"runs"`
+	Steps      int               `json:"steps"`
+	SimTimeMs  int64             `json:"sim_time_ms"`
+	Commits    int               `json:"commits"`
+	Crashes    int               `json:"crashes"`
+	Fired      map[string]int    `json:"fired"`
+	Probes     map[string]int    `json:"probes"`
+	Traces     []string          `json:"traces"`            // distinct interleaving digests
+	Nontrivial []string          `json:"nontrivial_traces"` // those with lock overlap / fault / preemption
+	Profiles   map[string]int    `json:"profiles"`
+	Violations []ReportedV       `json:"violations"`
+	Known      []string          `json:"known"`
+	Harness    []string          `json:"harness"`
+	Samples    []json.RawMessage `json:"samples"`
+	WallS      float64           `json:"wall_s"`
+	Leaked     int               `json:"leaked_runs"`
+	Unknown    int               `json:"porcupine_unknown"`
+	OutcomeMix map[string]int    `json:"outcome_mix"`
 }
 
 type ReportedV struct {
@@ -212,6 +212,11 @@ func minimise(t *testing.T, sc *Scenario, plan Plan, prop, clause string) (*Scen
 	return sc, plan, best
 }
 
+// profileFor spreads the profiles of a property over the run indexes independently of the worker stride.
+func profileFor(ps []Profile, run int) Profile {
+	return ps[int(RunSeed(0x70726f66, uint64(run))%uint64(len(ps)))]
+}
+
 func TestSim(t *testing.T) {
 	if *fReplay != "" {
 		replayFile(t)
@@ -235,7 +240,7 @@ func TestSim(t *testing.T) {
 		run := *fFrom + n**fStride
 		rs := RunSeed(*fSeed, uint64(run))
 		rng := NewRNG(rs)
-		p := ps[run%len(ps)]
+		p := profileFor(ps, run)
 		sc, ex := p.Gen(rng.Derive(0), rs, *fTier)
 		if *fOut != "" {
 			// a panic in a goroutine of the system under test kills the process: leave a note saying
@@ -389,7 +394,7 @@ func replayFile(t *testing.T) {
 		// exploration is deterministic: run index + seed reproduce the run (a process crash kills us here)
 		rs := RunSeed(rf.Seed, uint64(mode.Run))
 		ps := profiles[rf.Property]
-		p := ps[mode.Run%len(ps)]
+		p := profileFor(ps, mode.Run)
 		sc, ex := p.Gen(NewRNG(rs).Derive(0), rs, "quick")
 		res := RunScenario(t, sc, nil, ex)
 		for _, l := range res.Log {
